@@ -169,7 +169,7 @@ def scenario(ck, c, rnd, mjs, tight, scale):
 
 def generic_check(ck, path, mjs, tight, tag, single=False):
     """the clauses that need no knowledge of how the input was made: continuity, end points / closedness, no kinks, distance bound, single segment unchanged"""
-    closed = path.isclosed()
+    closed = path[0].start == path[-1].end          # (from the segments themselves, not from what the object remembers about its ends)
     size = max(abs(z) for sg in path for z in sg.bpoints()) + 1
     ext = max(abs(z - path[0].start) for sg in path for z in sg.bpoints()) + 1e-9
     ck.case(fp=('generic', tag, repr(path), mjs, tight), nontrivial=True)
@@ -200,7 +200,11 @@ def generic_check(ck, path, mjs, tight, tag, single=False):
             u, v = sm[i].unit_tangent(1), sm[(i + 1) % m].unit_tangent(0)
         except Exception as e:      # noqa
             return bad('tangent-undefined', 'unit tangent at joint %d of the result raised %r' % (i, e))
-        if not (abs(u - v) <= 1e-6):
+        # (far from the origin the direction of a short piece is only known to (rounding of the coordinates) / (its length))
+        bp0, bp1 = sm[i].bpoints(), sm[(i + 1) % m].bpoints()
+        h0, h1 = abs(bp0[-1] - bp0[-2]) or abs(bp0[-1] - bp0[0]), abs(bp1[1] - bp1[0]) or abs(bp1[-1] - bp1[0])
+        short = max(min(h0, h1), 1e-300)      # the handles that define the two tangents (the chord where a handle has zero length)
+        if not (abs(u - v) <= 1e-6 + 64 * math.ulp(size) / short):
             return bad('kink-left/' + ('closing-joint' if i == m - 1 else 'joint'), 'kink at joint %d of the result: tangents %r / %r' % (i, u, v), 'equal tangents', [str(u), str(v)])
     for i in range(m):
         for t in (0.25, 0.5, 0.75):
@@ -255,6 +259,45 @@ def extra_families(ck, rnd, quick):
                     generic_check(ck, sp.Path(sp.Line(a, b), sp.CubicBezier(b, b, c2, e)), mjs * sc, tight, 'line -> cubic with control1 == start')
                     generic_check(ck, sp.Path(sp.CubicBezier(e, c2, b, b), sp.Line(b, a)), mjs * sc, tight, 'cubic with control2 == end -> line')
                     generic_check(ck, sp.Path(sp.CubicBezier(e, c2, b, b), sp.CubicBezier(b, b, 2 * b - c2 + sc * (3 + 1j), a)), mjs * sc, tight, 'cubic -> cubic, both handles at the joint of zero length')
+
+    # the same corners in other units and elsewhere (maxjointsize scaled along): large drawings (1e6), small ones (1e-4), map-like coordinates (offsets of 5e6)
+    for sc, O in ((1e6, 0j), (1e-4, 0j), (1.0, 5e6 + 4e6j), (1.0, -3e7 + 1e6j), (1e3, 2e6 - 1e6j)):
+        f = lambda z: O + sc * z      # noqa
+        shapes = [('polyline with unit steps', [sp.Line(f(0j), f(2 + 0j)), sp.Line(f(2 + 0j), f(2 + 3j)), sp.Line(f(2 + 3j), f(5 + 4j)), sp.Line(f(5 + 4j), f(6 + 1j))], 0.5),
+                  ('cubic -> cubic corner', [sp.CubicBezier(f(0j), f(3 + 1j), f(6 + 1j), f(9 + 0j)), sp.CubicBezier(f(9 + 0j), f(10 + 4j), f(8 + 7j), f(9 + 10j))], 2.0),
+                  ('line -> cubic -> line', [sp.Line(f(0j), f(8 + 0j)), sp.CubicBezier(f(8 + 0j), f(9 + 4j), f(5 + 6j), f(4 + 9j)), sp.Line(f(4 + 9j), f(-3 + 9j))], 1.5),
+                  ('closed triangle', [sp.Line(f(0j), f(10 + 0j)), sp.Line(f(10 + 0j), f(4 + 8j)), sp.Line(f(4 + 8j), f(0j))], 1.0)]
+        for nm_, segs_, mjs_ in shapes:
+            for tight in (1.99, 1.0):
+                generic_check(ck, sp.Path(*segs_), mjs_ * sc, tight, '%s at scale %g, offset %r' % (nm_, sc, O))
+    # paths made by editing in place (negative indices, pop, the end setter) after they were queried: what counts is what the path is now
+    def poly(pts):
+        return sp.Path(*[sp.Line(a_, b_) for a_, b_ in zip(pts, pts[1:])])
+    A_, B_, C_, D_ = 1 + 1j, 11 + 1j, 12 + 9j, 3 + 8j
+    for how in ('path[-1] = closing line', 'pop the closing line', 'end = start', 'insert at -1', 'del path[-1]'):
+        if how == 'path[-1] = closing line':
+            pth = poly([A_, B_, C_, D_, 6 + 5j])
+            pth.length(), pth.isclosed(), pth.point(0.5)
+            pth[-1] = sp.Line(D_, A_)
+        elif how == 'pop the closing line':
+            pth = poly([A_, B_, C_, D_, A_])
+            pth.length(), pth.isclosed(), pth.point(0.5)
+            pth.pop()
+        elif how == 'end = start':
+            pth = poly([A_, B_, C_, D_, 6 + 5j])
+            pth.length(), pth.isclosed()
+            pth.end = A_
+        elif how == 'insert at -1':
+            pth = poly([A_, B_, C_, A_])
+            pth.length(), pth.isclosed()
+            pth[-1] = sp.Line(D_, A_)
+            pth.insert(-1, sp.Line(C_, D_))
+        else:
+            pth = poly([A_, B_, C_, D_, A_, 5 + 5j])
+            pth.length(), pth.isclosed()
+            del pth[-1]
+        for tight in (1.99, 1.2):
+            generic_check(ck, pth, 1.0, tight, 'polygon after "%s"' % how)
 
 
 def run(ck):
